@@ -299,6 +299,10 @@ def run(ctx):
     ctx.ok("R13.5", "serialisers:no-float-epoch", f"{scanned} call sites scanned in the serialiser modules", None)
     ctx.floor("R13.5", "call sites scanned", scanned, 100)
 
+    # ------------------------------------------------------------------ R13.6 (sibling rule) a timestamp column has the timestamp type wherever it is declared
+    ctx.import_rule("C18", "R18.5", "R13.6", "the SQLite reader turns TIMESTAMPTZ columns back into datetime: both places that declare columns (CREATE and ALTER) map the field type the same way")
+
+
 
 def _try_fold(prog, module, text):
     try:
